@@ -108,7 +108,7 @@ structure Inv2 (sp : Spec) : Prop where
   headSeen : ∀ y ∈ sp.st.head, y ∈ sp.seen
   snapSeen : ∀ e ∈ sp.st.entries, ∀ y ∈ e.snap, y ∈ sp.seen
   latest : match sp.st.entries.getLast? with
-    | some e => e.attr = e.snap.map (target sp) ∧ ∀ y ∈ sp.st.work, y ∉ e.snap → sp.g y = none
+    | some e => e.attr = e.snap.map (target sp) ∧ ∀ y ∈ sp.st.work, y ∉ e.snap → target sp y = none
     | none => sp.st.initial = pendingOf sp
 
 theorem pendingOf_nil (sp : Spec) (h : pendingOf sp = []) :
@@ -133,7 +133,7 @@ theorem previous_spec2 (sp : Spec) (h : Inv2 sp) :
     simp only
     refine ⟨hl.1, h.snapSeen e (List.mem_of_getLast? he), ?_⟩
     intro y hy hn
-    simp [target, hl.2 y hy hn]
+    exact hl.2 y hy hn
   | none =>
     rw [he] at hl
     simp only
@@ -276,7 +276,15 @@ theorem target_credit (sp : Spec) (ys : List Nat) (who : Author) (st' : State)
     target ⟨st', credit sp ys who, sp.seen ++ ys⟩ y = target sp y := by
   simp [target, hh, credit_seen sp ys who y h]
 
-theorem humanEdit_inv2 (sp : Spec) (ys : List Nat) (h : Inv2 sp) (hv : ValidEdit sp ys)
+/-- a person's edit keeps some current lines, may put lines of HEAD back (`git restore`,
+    `git checkout -- <file>`, undo) and introduces fresh ids -/
+def ValidEditH (sp : Spec) (ys : List Nat) : Prop :=
+  ys.Nodup ∧ ∀ y ∈ ys, y ∈ sp.seen → y ∈ sp.st.work ∨ y ∈ sp.st.head
+
+theorem ValidEdit.toH {sp : Spec} {ys : List Nat} (h : ValidEdit sp ys) : ValidEditH sp ys :=
+  ⟨h.1, fun y hy hs => Or.inl (h.2 y hy hs)⟩
+
+theorem humanEdit_inv2 (sp : Spec) (ys : List Nat) (h : Inv2 sp) (hv : ValidEditH sp ys)
     (hs : Settled sp.st) : Inv2 (specStep sp (.humanEdit ys)) := by
   obtain ⟨hnd, hkeep⟩ := hv
   have hl := h.latest
@@ -304,10 +312,15 @@ theorem humanEdit_inv2 (sp : Spec) (ys : List Nat) (h : Inv2 sp) (hv : ValidEdit
       · intro y hy hn
         have hy' : y ∈ ys := hy
         by_cases hsn : y ∈ sp.seen
-        · show credit sp ys none y = none
-          rw [credit_seen sp ys none y hsn]
-          exact hl.2 y (hkeep y hy' hsn) hn
-        · exact credit_fresh sp ys none y hsn hy'
+        · have ht : target (specStep sp (.humanEdit ys)) y = target sp y :=
+            target_credit sp ys none (step sp.st (.humanEdit ys)) rfl y hsn
+          rw [ht]
+          rcases hkeep y hy' hsn with hw | hh
+          · exact hl.2 y hw hn
+          · simp [target, hh]
+        · have hnh : y ∉ sp.st.head := fun hh => hsn (h.headSeen y hh)
+          show (if y ∈ sp.st.head then none else credit sp ys none y) = none
+          simp [hnh, credit_fresh sp ys none y hsn hy']
     | none =>
       rw [he] at hl
       simp only
@@ -328,7 +341,9 @@ theorem humanEdit_inv2 (sp : Spec) (ys : List Nat) (h : Inv2 sp) (hv : ValidEdit
       · have ht : target (specStep sp (.humanEdit ys)) y = target sp y :=
           target_credit sp ys none (step sp.st (.humanEdit ys)) rfl y hsn
         rw [ht]
-        exact pendingOf_nil sp hpend y (hkeep y hy' hsn)
+        rcases hkeep y hy' hsn with hw | hh
+        · exact pendingOf_nil sp hpend y hw
+        · simp [target, hh]
       · have hnh : y ∉ sp.st.head := fun hh => hsn (h.headSeen y hh)
         show (if y ∈ sp.st.head then none else credit sp ys none y) = none
         simp [hnh, credit_fresh sp ys none y hsn hy']
@@ -492,7 +507,7 @@ theorem commit_spec (sp : Spec) (h : Inv2 sp) (hok : CommitOK sp) :
           simp [hx, target, hnh]
       show match (commitStep sp.st).entries.getLast? with
         | some e => e.attr = e.snap.map (target ⟨commitStep sp.st, sp.g, sp.seen⟩) ∧
-            ∀ y ∈ (commitStep sp.st).work, y ∉ e.snap → sp.g y = none
+            ∀ y ∈ (commitStep sp.st).work, y ∉ e.snap → target ⟨commitStep sp.st, sp.g, sp.seen⟩ y = none
         | none => (commitStep sp.st).initial = pendingOf ⟨commitStep sp.st, sp.g, sp.seen⟩
       rw [hent]
       exact hgoal
@@ -506,7 +521,7 @@ namespace GitAi.Sys
     `Settled` hypothesis is exactly the region excluded by the known finding
     "pending AI lines edited by a person before the next checkpoint". -/
 def ValidOp2 (sp : Spec) : Op → Prop
-  | .humanEdit ys => ValidEdit sp ys ∧ Settled sp.st
+  | .humanEdit ys => ValidEditH sp ys ∧ Settled sp.st
   | .aiEdit _ ys => ValidEdit sp ys
   | .humanCheckpoint => True
   | .stageAll => True
